@@ -121,10 +121,50 @@ def predsLine (s : Bytes) : String :=
       "valid=" ++ tied "valid" (showResBool (isValid s)) (bit (Spec.Script.isValid s)) ]
   joinWith " " parts
 
+/-- the stateless answer of one observer of a script object (`c08.hist`): an observer's answer never
+    depends on what was asked of the object before -/
+def observe (s : Bytes) (o : String) : Option String :=
+  match o with
+  | "iter" => some (showCooked (cooked s))
+  | "raw" => some (showRaw (rawIter s))
+  | "so0" => some (showResNat (getSigOpCount s false))
+  | "so1" => some (showResNat (getSigOpCount s true))
+  | "p2sh" => some (bit (isP2sh s))
+  | "wspk" => some (showResBool (isWitnessScriptPubKey s))
+  | "wver" => some (showResTok (witnessVersion s))
+  | "k" => some (bit (isWitnessV0Keyhash s))
+  | "nk" => some (bit (isWitnessV0NestedKeyhash s))
+  | "sh" => some (bit (isWitnessV0Scripthash s))
+  | "nsh" => some (bit (isWitnessV0NestedScripthash s))
+  | "push" => some (bit (isPushOnly s))
+  | "canon" => some (showResBool (hasCanonicalPushes s))
+  | "unsp" => some (bit (isUnspendable s))
+  | "valid" => some (showResBool (isValid s))
+  | "len" => some (toString s.length)
+  | "bytes" => some (toHex s)
+  | "add" => some (joinWith "," ([Token.op 0xac, .int 1, .data [0x61, 0x62]].map (fun t =>
+      match add s t with
+      | .ok r => toHex r
+      | .error e => "err:" ++ e.family)))
+  -- value-free observers: the harness checks them against Python's own fresh computation
+  | "repr" => some "1"
+  | "hash" => some "1"
+  | "eq" => some "1"
+  | "top2sh" => some "1"
+  | _ => none
+
+def histLine (s : Bytes) (obs : List String) : String :=
+  match obs.mapM (observe s) with
+  | some l => joinWith " | " l
+  | none => badArgs
+
 def handle (op : String) (args : List String) : Option String :=
   match op, args with
   | "c08.build", [toks] => some <| match parseTokens? toks with
       | some ts => buildLine ts
+      | none => badArgs
+  | "c08.hist", [hex, obs, _route] => some <| match parseHex? hex with
+      | some s => if obs.isEmpty then badArgs else histLine s (splitList obs ',')
       | none => badArgs
   | "c08.add", [hex, tok] => some <| match parseHex? hex, parseToken? tok with
       | some s, some t => (match add s t with
